@@ -32,6 +32,11 @@ async def explore(tier, seed):
         if time.time() - t0 > (100 if tier == "quick" else 1500): break
         sg = SchemaGen(rng)
         renv = sg.gen_env(adv=0.05, fail=0.15)
+        nonintro = si % 3 == 0       # every third schema forbids introspection at schema level
+        def model_():
+            mdl = sg.model()
+            if nonintro: mdl["sdl_extra"] = list(mdl.get("sdl_extra", [])) + ["extend schema @nonIntrospectable"]
+            return mdl
         pool = []
         for _ in range(6):
             dg = DocGen(sg, rng, op_kinds=("query", "mutation") if sg.mutation else ("query",))
@@ -63,6 +68,9 @@ async def explore(tier, seed):
             except Exception:
                 pass
         pool.append(("junk", "", None, None)); pool.append(("junk", "{", None, None))
+        # introspection selections under different response keys / positions (refused as a field error when the schema forbids it)
+        for q_ in ("{ a: __schema { queryType { name } } }", '{ __typename b: __type(name: "T") { name } }', '{ c: __type(name: "Query") { name } d: __schema { queryType { name } } }'):
+            pool.append(("introspection", q_, None, None))
         for hi in range(nhist):
             hist = [rng.choice(pool) for _ in range(rng.randint(6, 25))]
             # repetition on purpose
@@ -79,7 +87,7 @@ async def explore(tier, seed):
                 res = {}
                 for k_ in od:
                     kind, q, opn, variables = uniq[k_]
-                    ref = await er.build_engine(sg.model(), renv, engine_kwargs={"query_cache_decorator": None})
+                    ref = await er.build_engine(model_(), renv, engine_kwargs={"query_cache_decorator": None})
                     try:
                         res[k_] = canon(await ref.engine.execute(q, operation_name=opn, variables=variables))
                     except Exception as e:
@@ -95,7 +103,7 @@ async def explore(tier, seed):
             for cname, kw in (CONFIGS if tier != "quick" else rng.sample(CONFIGS, 3)):
                 kw = dict(kw)
                 if cname.startswith("lru-"): kw["query_cache_decorator"] = lru_cache(maxsize=int(cname[4:]))
-                b = await er.build_engine(sg.model(), renv, engine_kwargs=kw)
+                b = await er.build_engine(model_(), renv, engine_kwargs=kw)
                 stats["histories"] += 1
                 for i, (kind, q, opn, variables) in enumerate(hist):
                     try:
